@@ -17,7 +17,10 @@ Oracle (from the property text, not from the code):
   * rank / world size given explicitly are honoured whatever the process' own default process group says, and the
     defaults (rank=None) resolve to the process group's rank / world size at the time the sampler is built (driven
     through torch's single-process "fake" process group; every such case asks the library without a group, creates the
-    group, asks again, destroys it and asks again, so a stale answer in either direction is observable).
+    group, asks again, destroys it and asks again, so a stale answer in either direction is observable; while the group
+    exists LOCAL_RANK / RANK / WORLD_SIZE are set to values that contradict it - the group decides);
+  * cross-process: the streams of (configuration, seed, epoch, rank) computed in a fresh interpreter with another
+    PYTHONHASHSEED equal the ones computed in this process (ranks live in different processes; a run is restarted).
 """
 from __future__ import annotations
 
@@ -25,7 +28,11 @@ import importlib
 import itertools
 import math
 import operator
+import json
+import os
 import random as _pyrandom
+import subprocess
+import sys
 
 import torch
 
@@ -54,14 +61,20 @@ ASSUMPTIONS = [
     "refusal class, class-balanced datasets with absent classes or samples_per_class=0, weighted size=0 / size>len / fewer "
     "non-zero weights than requested draws, RandomSampler(num_samples=...); with replacement=True the run heads need not be distinct, seed "
     "dependence of the draw (only (seed, epoch) reproduction is claimed), what an unshuffled draw looks like",
+    "cross-process reproduction is observed for a handful of configurations per run (3 child interpreters in quick, 5 per shard in "
+    "thorough) with PYTHONHASHSEED 1, 2 and random values against this interpreter; a child that cannot be started, crashes or "
+    "times out makes the run inconclusive",
+    "while a process group is initialised, LOCAL_RANK / RANK / WORLD_SIZE / LOCAL_WORLD_SIZE that contradict it are ignored in "
+    "favour of the group (not driven: environment variables without an initialised group)",
     "the ambient-process-group cases need torch.testing._internal.distributed.fake_pg (single process, no network); if it "
     "is unavailable the run is inconclusive, not held",
 ]
-MONITORS = ["rank_streams_observed", "repeat_runs_with_replacement_checked", "group_lifecycle_checked", "split_checked", "reproduction_checked", "epoch_difference_checked",
+MONITORS = ["rank_streams_observed", "cross_process_streams_compared", "group_env_contradiction_checked", "repeat_runs_with_replacement_checked", "group_lifecycle_checked", "split_checked", "reproduction_checked", "epoch_difference_checked",
             "repeat_runs_checked", "pad_wraparound_checked", "tail_cut_checked", "step_budget_runs", "ambient_pg_checked"]
 
 P_MAX = 1e-15  # per-comparison bound for the statistical clause "another epoch gives another draw"
 KINDS = ["distributed", "classbalanced", "weighted", "random", "ambient"]
+XPROC_TIMEOUT_S = 600   # generous: a child needs a few seconds; expiry is reported as inconclusive, never as a violation
 
 
 # ------------------------------------------------------------------------------------------------ generation
@@ -136,6 +149,18 @@ def _one(rng, kind):
         spec["pgW"] = rng.choice([W, W, rng.randint(1, 8)])
         spec["pgrank"] = rng.choice([spec["pgW"] - 1, rng.randrange(spec["pgW"])])
         spec["epochs"] = spec["epochs"][:2]
+        if rng.random() < 0.75:
+            # launcher variables that contradict the group (LOCAL_RANK legitimately differs from the global rank on every
+            # node but the first); the initialised group is the authority
+            others = [r for r in range(8) if r != spec["pgrank"]]
+            env = {"LOCAL_RANK": str(rng.choice(others))}
+            if rng.random() < 0.7:
+                env["RANK"] = str(rng.choice(others + [spec["pgrank"]]))
+            if rng.random() < 0.7:
+                env["WORLD_SIZE"] = str(rng.choice([w for w in range(1, 10) if w != spec["pgW"]]))
+            if rng.random() < 0.3:
+                env["LOCAL_WORLD_SIZE"] = str(rng.randint(1, 8))
+            spec["env"] = env
     sub = spec.get("sub", kind)
     if sub == "distributed":
         spec["R"] = rng.choice([1, 1, 2, 3, 4])
@@ -167,9 +192,29 @@ def _one(rng, kind):
     return spec
 
 
+def _xproc_spec(rng, ncfg, hashseed):
+    cfgs = []
+    for j in range(ncfg):
+        kind = ["weighted", "classbalanced", "distributed", "random"][j % 4]
+        c = _one(rng, kind)
+        for _ in range(6):
+            if c["n"] >= (12 if j % 3 else 4):
+                break
+            c = _one(rng, kind)
+        c.pop("_trivial", None)
+        c["epochs"] = sorted(set(c["epochs"]))[:2]
+        cfgs.append(c)
+    return {"kind": "xproc", "hashseed": hashseed, "configs": cfgs}
+
+
 def gen_cases(run):
+    global _ASYNC
+    _ASYNC = True          # generated runs overlap the children with the other cases; a replay runs its child synchronously
     total = run.n(3600, 160000)
     rng = run.rng
+    nx = 3 if run.quick() else 5
+    for j in range(nx):
+        yield _xproc_spec(rng, 16 if run.quick() else 48, [1, 2][j] if j < 2 else rng.randrange(3, 2 ** 32))
     for i in range(total):
         kind = KINDS[i % len(KINDS)] if i < 6 * len(KINDS) else rng.choices(KINDS, weights=[5, 4, 4, 2, 2])[0]
         spec = _one(rng, kind)
@@ -492,7 +537,9 @@ def _covers(run, spec, sub):
 def run_case(run, spec):
     kind = spec["kind"]
     try:
-        if kind == "random":
+        if kind == "xproc":
+            _run_xproc(run, spec)
+        elif kind == "random":
             _run_random(run, spec)
         elif kind == "ambient":
             _run_ambient(run, spec)
@@ -629,7 +676,14 @@ def _run_ambient(run, spec):
     if not _lifecycle_no_group(run, spec, sub, ds, e0, D, what, eff, "before"):
         return
     dist.init_process_group(backend="fake", rank=pgr, world_size=pgW, store=FakeStore())
+    env = spec.get("env") or {}
+    saved = {k: os.environ.get(k) for k in env}
     try:
+        if env:
+            os.environ.update(env)
+            run.count("group_env_contradiction_checked")
+            run.cover("ambient-env", sub, tuple(sorted(env)))
+            what = f"{what} with environment {env}"
         h = _helpers(run, f"{what}: helpers under the group")
         if h is not None and h != (True, pgr, pgW):
             run.violation("helpers:not-from-process-group", f"{what}: (is_distributed, get_rank, get_world_size) = {h} while the default "
@@ -655,8 +709,154 @@ def _run_ambient(run, spec):
                               f"without a process group yields len={plain[r][0]} {_s(plain[r][1])}")
                 return
     finally:
+        for k, v in saved.items():
+            if v is None:
+                os.environ.pop(k, None)
+            else:
+                os.environ[k] = v
         if dist.is_initialized():
             dist.destroy_process_group()
     _lifecycle_no_group(run, spec, sub, ds, e0, D, what, eff, "after")
+
+
+# ------------------------------------------------------------------------------------------------ cross-process clause
+_ASYNC = False
+_pending = []     # (spec, Popen, in-process streams) of children still running
+
+
+def plain_streams(cfg):
+    """per-epoch, per-rank (len, stream) of one configuration - no monitors; this is what the child interpreter runs"""
+    sub = cfg["kind"]
+    _seed_globals(cfg["g"])
+    if sub == "random":
+        g = torch.Generator().manual_seed(cfg["seed"]) if cfg["gen"] else None
+        s = RandomSampler(list(range(cfg["n"])), replacement=bool(cfg.get("replacement")), num_repeats=cfg["R"], generator=g)
+        return {"0": [[len(s), [operator.index(v) for v in s]]]}
+    out = {}
+    ds = _dataset(cfg, sub)
+    for e in sorted(set(cfg["epochs"])):
+        rows = []
+        for r in range(cfg["W"]):
+            s = _make(cfg, sub, ds, r, cfg["W"])
+            s.set_epoch(e)
+            rows.append([len(s), [operator.index(v) for v in s]])
+        out[str(e)] = rows
+    return out
+
+
+def _monitored_streams(run, cfg):
+    """the same observation in this process, through the monitored path (step budget, exception taxonomy)"""
+    sub = cfg["kind"]
+    what = f"{sub}{ {k: v for k, v in cfg.items() if k not in ('classes', 'weights', 'g', 'order', 'kind')} }"
+    _seed_globals(cfg["g"])
+    if sub == "random":
+        g = torch.Generator().manual_seed(cfg["seed"]) if cfg["gen"] else None
+        ds = list(range(cfg["n"]))
+        s = _construct(run, cfg, sub, lambda: RandomSampler(ds, replacement=bool(cfg.get("replacement")), num_repeats=cfg["R"], generator=g), what + " ctor")
+        ln, L = _stream(run, cfg, sub, s, what, cfg["n"])
+        return {"0": [[ln, L]]}
+    out = {}
+    ds = _dataset(cfg, sub)
+    for e in sorted(set(cfg["epochs"])):
+        rows = []
+        for r in range(cfg["W"]):
+            s = _construct(run, cfg, sub, lambda r=r: _make(cfg, sub, ds, r, cfg["W"]), what + " ctor")
+            _set_epoch(run, sub, s, e, what)
+            ln, L = _stream(run, cfg, sub, s, f"{what} rank {r} epoch={e}", _eff(cfg, sub))
+            rows.append([ln, L])
+        out[str(e)] = rows
+    return out
+
+
+def _xproc_fail(run, msg):
+    run.count("cross_process_child_failed")
+    run.notes.setdefault("cross_process_failures", [])
+    if len(run.notes["cross_process_failures"]) < 5:
+        run.notes["cross_process_failures"].append(msg[:600])
+
+
+def _run_xproc(run, spec):
+    mine = []
+    for cfg in spec["configs"]:
+        try:
+            mine.append(_monitored_streams(run, cfg))
+        except _Abort:
+            mine.append(None)      # refusal class / already reported under its own key: nothing to compare
+    env = dict(os.environ, PYTHONHASHSEED=str(spec["hashseed"]), OMP_NUM_THREADS="1", MKL_NUM_THREADS="1", PYTHONDONTWRITEBYTECODE="1",
+               PYTHONPATH=os.pathsep.join([str(core.REPO), str(core.VERIF)]))
+    for k in ("LOCAL_RANK", "RANK", "WORLD_SIZE", "LOCAL_WORLD_SIZE"):
+        env.pop(k, None)
+    try:
+        p = subprocess.Popen([sys.executable, "-m", "kdv.h12_child"], cwd=str(core.VERIF), env=env, stdin=subprocess.PIPE,
+                             stdout=subprocess.PIPE, stderr=subprocess.STDOUT, text=True)
+        p.stdin.write(json.dumps({"configs": spec["configs"]}))
+        p.stdin.close()
+        p.stdin = None
+    except Exception as e:
+        _xproc_fail(run, f"could not start the child interpreter: {e!r}")
+        return
+    run.cover("xproc", "hashseed", min(spec["hashseed"], 3))
+    if _ASYNC:
+        _pending.append((spec, p, mine))
+    else:
+        _collect_xproc(run, spec, p, mine)
+
+
+def _collect_xproc(run, spec, p, mine):
+    try:
+        out, _ = p.communicate(timeout=XPROC_TIMEOUT_S)
+    except subprocess.TimeoutExpired:
+        p.kill()
+        p.communicate()
+        _xproc_fail(run, f"child interpreter (PYTHONHASHSEED={spec['hashseed']}) hit the {XPROC_TIMEOUT_S}s watchdog")
+        return
+    from .h12_child import MARK
+    line = next((l for l in reversed(out.splitlines()) if l.startswith(MARK)), None)
+    if p.returncode != 0 or line is None:
+        _xproc_fail(run, f"child interpreter (PYTHONHASHSEED={spec['hashseed']}) rc={p.returncode}: {out[-400:]}")
+        return
+    res = json.loads(line[len(MARK):])
+    if "fatal" in res or len(res.get("results", [])) != len(spec["configs"]):
+        _xproc_fail(run, f"child interpreter: {res.get('fatal', 'incomplete result')}")
+        return
+    for cfg, a, b in zip(spec["configs"], mine, res["results"]):
+        if a is None:
+            continue
+        sub = cfg["kind"]
+        one = {"kind": "xproc", "hashseed": spec["hashseed"], "configs": [cfg]}     # minimal replayable witness
+        desc = {k: v for k, v in cfg.items() if k not in ("classes", "weights", "g", "order", "kind")}
+        if "error" in b:
+            run.count("cross_process_streams_compared")
+            run.violation(f"{sub}:cross-process-exception", f"{sub}{desc}: works in this interpreter, a fresh interpreter with "
+                          f"PYTHONHASHSEED={spec['hashseed']} raises {b['error']}", one)
+            continue
+        shape_ok = set(a) == set(b["streams"]) and all(len(a[e]) == len(b["streams"][e]) for e in a)
+        if not shape_ok:
+            _xproc_fail(run, f"child result for {sub}{desc} has the wrong shape")
+            continue
+        bad = None
+        for e, rows in a.items():
+            for r, (row_a, row_b) in enumerate(zip(rows, b["streams"][e])):
+                run.count("cross_process_streams_compared")
+                if bad is None and [row_a[0], list(row_a[1])] != [row_b[0], list(row_b[1])]:
+                    bad = (e, r, row_a, row_b)
+        if bad is not None:
+            e, r, row_a, row_b = bad
+            run.violation(f"{sub}:not-reproducible-across-processes",
+                          f"{sub}{desc} rank {r} epoch={e}: this interpreter (PYTHONHASHSEED={os.environ.get('PYTHONHASHSEED')}) yields len={row_a[0]} "
+                          f"{_s(row_a[1])}, a fresh interpreter with PYTHONHASHSEED={spec['hashseed']} and equal (seed, epoch, rank) yields "
+                          f"len={row_b[0]} {_s(row_b[1])}", one)
+
+
+def finalize(run):
+    while _pending:
+        spec, p, mine = _pending.pop(0)
+        _collect_xproc(run, spec, p, mine)
+
+
+def finalize_merged(run):
+    fails = run.notes.get("cross_process_failures")
+    if fails and not run.violations:
+        raise core.Inconclusive("cross-process clause: " + "; ".join(fails)[:1200])
 
 
